@@ -105,6 +105,9 @@ def run_instance(mod, nodes, edges, mode, tier, seed, deadline=None, built=False
         stats['finals'] += len(ex.finals)
         stats['orders'] += 1
         stats['capped'] = stats['capped'] or ex.capped
+        if ex.finals:
+            _s = ex.finals[0]
+            stats['sample'] = {'path': [[list(a), r] for a, r in _s.path()], 'path_condition': [[repr(a), b] for a, b in sorted(_s.pc.items(), key=repr)][:40]}
         for (fpc, disp, hist), st in oc.outcomes.items():
             entries.append((dict(st.pc), fpc, disp, hist, st, uni, ex))
     z = F.Z3Ctx()
